@@ -11,6 +11,7 @@ func init() {
 		Title: "Bounds is the tight bounding box and FastBounds contains it",
 		Explanation: "Decides, for every path, the structural clauses of Bounds/FastBounds/Rect hulls: each accumulator returned as a low (high) side is only ever updated by math.Min (math.Max) folds that include itself; no fold nests the opposite operator; Bounds folds every segment end point into all four sides unconditionally; FastBounds folds every decoded control/end point into all four sides with min/max and X/Y candidate sets mirrored (arc: centre∓max(rx,ry)); Rect.Transform/Add/AddPoint hulls are pure and complete. A violated clause makes the box exclude a point of the path for some input. NOT decided: which Bézier/arc extrema are computed (root finding, angle tests), tightness, equivariance.",
 		Run: func(c *core.Ctx, r *core.Report) {
+			E3ArcShortcut(c, r)
 			E3BoundingBoxes(c, r)
 			E3BoundsExtrema(c, r)
 		},
@@ -52,6 +53,7 @@ func init() {
 		Title: "Length, SplitAt and Reverse are consistent views of the same curve",
 		Explanation: "Decides the encoding clauses Length/SplitAt/Reverse/Split depend on, for every path: in every decoder loop of the package (incl. SplitAt, Reverse, Split, Length) a command cursor of one path only indexes that path's data; payload offsets stay inside the record of the command being decoded; every record built (incl. the ones Reverse emits) has the command at both ends and the format's length; cmdLen agrees with the format. NOT decided: quadrature, arc-length inversion, involution, winding negation.",
 		Run: func(c *core.Ctx, r *core.Report) {
+			E3ArcShortcut(c, r)
 			E2CmdLenTable(c, r)
 			E2CursorDomain(c, r, nil)
 			E2RecordLayout(c, r)
@@ -74,6 +76,7 @@ func init() {
 		Assumptions: []string{"cursor variables are non-negative (initialised to 0 and only incremented)", "strconv.ParseFloat (tdewolff/parse) returns 0 <= n <= len(b)", "third-party dependencies are trusted not to panic"},
 		Run: func(c *core.Ctx, r *core.Report) {
 			E4ParserGuards(c, r)
+			E4ParserProgress(c, r)
 			E2PenTracking(c, r, []string{"Path.ToSVG", "Path.ToPS", "Path.ToPDF"})
 			r.Rule("E4.panic-reach", "no explicit panic(...) call in the module or its Go dependencies is reachable in the VTA call graph from ParseSVGPath or ParseSVG, except sites in the reviewed table (function + message -> why no parser input reaches it)")
 			roots := []*ssa.Function{c.SSAFunc("", "ParseSVGPath"), c.SSAFunc("", "ParseSVG")}
@@ -102,6 +105,7 @@ func init() {
 			E5ObjOffsets(c, r)
 			E5Reserved(c, r)
 			E5FreshRef(c, r)
+			E5ValueTypes(c, r)
 			E5StreamLength(c, r)
 			E5Metadata(c, r)
 			E5FontMaps(c, r)
@@ -118,6 +122,7 @@ func init() {
 		Explanation: "Decides structural agreement among the four back-ends for every drawing: each RenderPath reads every Style field (a back-end that never reads a field cannot honour it); every explicit Dash call receives canvas.ScaleDash(style.StrokeWidth, …) like the reference rasterizer; every path serialised by ToSVG/ToPDF/ToPS/ToScanxScanner derives on every path from Transform(M) with M built from the view parameter (SVG: with the y-flip), incl. the explicit-outline fall-backs; cap/join codes per concrete Capper/Joiner type agree with the formats' tables and the even-odd marker is emitted only under FillRule == EvenOdd; the emitted PDF and PostScript fragments form only operators of the respective vocabulary with balanced save/restore (abstract interpretation with path-sensitive repeated conditions), and procedure names emitted by Path.ToPS are defined in the PS prolog. NOT decided: that an interpreter of the output paints the same pixels, gradients/patterns, text, opacity, unit factors, Positive/Negative fill rules (no back-end format has them).",
 		Assumptions: []string{"the rasterizer is the reference for dash scaling", "PS.RenderImage (binary image data) is outside the grammar rule"},
 		Run: func(c *core.Ctx, r *core.Report) {
+			E11ConstIndexInLoop(c, r)
 			E6StyleCoverage(c, r, nil)
 			E6DashScaling(c, r)
 			E6WidthFrame(c, r)
@@ -166,6 +171,7 @@ func init() {
 		Title: "Context and Canvas apply views, coordinate systems and state as documented",
 		Explanation: "Decides, for every call sequence: view helpers are exactly `view = view.Mul(Identity.<same-named op>(own parameters))` (post-multiplication) and ComposeView post-multiplies its argument; the four draw entry points assemble the same matrix CoordSystemView().Mul(view).Translate(coordView.Dot(x,y)) and compensate text/images exactly in the coordinate systems whose CoordSystemView reflects that axis; every Set*/Reset* method stores only into ContextState; Push saves and Pop restores the whole ContextState (Pop guarded, shrinking by one); Fill/Stroke clear and restore exactly the other paint; drawing does not rewrite the dash array shared with pushed states; RenderViewTo replays in sorted z-index then slice order with no renderer call inside a map range, and recording appends to the current z-index slice. NOT decided: the matrix algebra itself, Fit/Clip/Transform arithmetic, that DrawPath with several paths keeps per-path stroke state.",
 		Run: func(c *core.Ctx, r *core.Report) {
+			E11FitStroke(c, r)
 			E11ViewComposition(c, r)
 			E11ContextState(c, r)
 			E11Replay(c, r)
